@@ -1,18 +1,22 @@
 ---- MODULE MCTrieKV ----
 (* Key universe of the plain Trie: byte keys 1234, 1235, 1245, 12 (a strict prefix of the first three),
-   1334, 7234 as nibble paths with the terminator 16.  The SecureTrie hashes keys first; its paths are
+   1334, 7234 and the empty key as nibble paths with the terminator 16.  The SecureTrie hashes keys first; its paths are
    logged by the harness and used by the trace spec. *)
 EXTENDS TrieKV
-McPath == [k \in {"k1", "k2", "k3", "k4", "k5", "k6"} |->
-             CASE k = "k1" -> <<1, 2, 3, 4, 16>>
+McPath == [k \in {"k0", "k1", "k2", "k3", "k4", "k5", "k6"} |->
+             CASE k = "k0" -> <<16>>                   \* the empty key (plain Trie): a strict prefix of every key
+               [] k = "k1" -> <<1, 2, 3, 4, 16>>
                [] k = "k2" -> <<1, 2, 3, 5, 16>>
                [] k = "k3" -> <<1, 2, 4, 5, 16>>
                [] k = "k4" -> <<1, 2, 16>>
                [] k = "k5" -> <<1, 3, 3, 4, 16>>
                [] k = "k6" -> <<7, 2, 3, 4, 16>>]
-VarQuick == {<<"plain", 0>>, <<"plain", 1>>, <<"plain", 2>>, <<"secure", 1>>}
+VarQuick == {<<"plain", 0>>, <<"plain", 1>>, <<"secure", 1>>}
 VarAll == {"plain", "secure"} \X {0, 1, 2, 120}
 VarNeg == {<<"plain", 1>>}
+Keys7 == {"k0", "k1", "k2", "k3", "k4", "k5", "k6"}
+KeysEdge == {"k0", "k1", "k2", "k4"}
+VarEdge == {<<"plain", 0>>, <<"plain", 1>>}
 Keys4 == {"k1", "k2", "k3", "k4"}
 Keys5 == {"k1", "k2", "k3", "k4", "k5"}
 Keys6 == {"k1", "k2", "k3", "k4", "k5", "k6"}
